@@ -103,6 +103,9 @@ func (e *Engine) contractFor(name string) *Contract {
 func (e *Engine) siteRules(fr *Frame) []*SiteRule {
 	var out []*SiteRule
 	out = append(out, e.spec.Globals...)
+	if e.sweepOnly {
+		return out
+	}
 	// rules of the unit under verification apply to inlined code as well
 	seen := map[*Contract]bool{}
 	for f := fr; f != nil; f = f.parent {
@@ -131,7 +134,9 @@ func (e *Engine) siteEvent(st *State, fr *Frame, sel, name string, vars map[stri
 				e.specError(fr, "site rule %s %s: %v", r.Sel, r.Pat, err)
 				continue
 			}
+			e.inGlobal = r.IsGlobal
 			e.oblige(st, "site", r.Cl.Label, g, r.Cl.Tags, pos)
+			e.inGlobal = false
 		case "assume":
 			g, err := e.EvalBool(env, r.Cl.E)
 			if err != nil {
